@@ -1,5 +1,6 @@
 """Shared by C03/C04: call_rcu scenario on the real code, projection onto CallRcuExec actions, oracles."""
 import re
+import oracles
 from vlib import *
 import gp_common as G
 OBJ = 32
@@ -53,6 +54,8 @@ def oracle(prog, s, cl, raw):
     if m: return 'thread %s accessed %s: a call_rcu_data structure that had already been released (helper freed under a caller that had selected it)' % (m.group(1), m.group(2))
     if 'DEADLOCK' in raw: return 'stuck state: an application thread is blocked for ever (rcu_barrier / call_rcu_data_free never returns)'
     if 'STEP LIMIT' in raw: return 'live-lock: step limit reached'
+    so = oracles.sleeper_order(raw)
+    if so: return so
     callidx, retcall, cbcall, cbret = {}, {}, {}, {}
     sections = []; open_ = {}; depth = {}; bars = []; bo = {}
     for i, p in enumerate(ev):
